@@ -28,6 +28,7 @@ from __future__ import annotations
 import ast
 
 from ..repo import AnalysisError, FuncInfo, dotted, own_nodes
+from .common import only_called_from
 
 MANIFEST = {
     "text": (
@@ -166,21 +167,45 @@ def run(ctx):
     if len(cc) != 1:
         raise AnalysisError("add_conjunctive_edges: exactly one add_edge expected")
     c = cc[0]
-    a, b = ast.unparse(c.args[0]).replace(" ", ""), ast.unparse(c.args[1]).replace(" ", "")
     loops = _enclosing_loops(f, c)
+    from .c03 import _position_of
+
+    def pos(e):
+        x = ctx.norm.xexpr(f, e)
+        return _position_of(ctx, f, x)
+
+    pa, pb = pos(c.args[0]), pos(c.args[1])
+    its = [ctx.norm.xtext(f, lp.iter).replace(" ", "") for lp in loops]
     if _etype(c) != "CONJUNCTIVE":
         chk.violation("R16.b", f, c, f"conjunctive edge typed `{_etype(c)}`", loc=f.loc(c))
-    elif not (a.endswith("[i-1]") and b.endswith("[i]")):
-        chk.violation("R16.b", f, c, f"conjunctive edge goes {a} -> {b}, not from position i-1 to position i", loc=f.loc(c))
-    elif not (loops and ast.unparse(loops[0].iter).replace(" ", "") == "range(1,len(job_operations))" and len(loops) == 2 and ast.unparse(loops[1].iter).endswith("nodes_by_job")):
+    elif pa is None or pb is None:
+        raise AnalysisError(f"{f.loc(c)}: endpoints of the conjunctive edge not recognised")
+    elif not (pa[0] == pb[0] and pa[1] == pb[1] and pb[2] == pa[2] + 1):
         chk.violation(
             "R16.b", f, c,
-            f"conjunctive edges are added over `{ast.unparse(loops[0].iter) if loops else '?'}`, not over every "
-            "consecutive pair of every job",
+            f"conjunctive edge goes {ast.unparse(c.args[0])} -> {ast.unparse(c.args[1])}, not from a position to the next one of the same job",
             loc=f.loc(c),
         )
     else:
-        chk.ok("R16.b", f.qualname, f.loc(c), "i-1 -> i for i in 1..len-1 of every job, CONJUNCTIVE")
+        lst = pa[0]
+        if pa[1] == "#pairs":
+            cover = True
+        else:
+            lo, hi = pa[2], pb[2]
+            want = {f"range({-lo},len({lst}){'-' + str(hi) if hi > 0 else ''})"}
+            if lo == 0:
+                want.add(f"range(len({lst})-{hi})")
+            cover = bool(its) and its[0] in want
+        all_jobs = any(t.endswith("nodes_by_job") for t in its)
+        if cover and all_jobs:
+            chk.ok("R16.b", f.qualname, f.loc(c), "position i -> i+1 for every consecutive pair of every job, CONJUNCTIVE")
+        else:
+            chk.violation(
+                "R16.b", f, c,
+                f"conjunctive edges are added over `{its[0] if its else '?'}`, not over every "
+                "consecutive pair of every job",
+                loc=f.loc(c),
+            )
     f = fn["add_source_sink_edges"]
     cc = _edge_calls(f)
     okd = {"src": False, "snk": False}
@@ -381,7 +406,7 @@ def _node_ids(ctx):
                     ok = False
                     chk.violation("R16.d", m, n, f"the node id counter is rebound by `{ast.unparse(n)}`: ids no longer start at 0 / are reused", loc=m.loc(n))
             elif isinstance(n, ast.AugAssign) and ast.unparse(n.target) == "self._next_node_id":
-                if not (m is addn_raw and isinstance(n.op, ast.Add) and isinstance(n.value, ast.Constant) and n.value.value == 1):
+                if not ((m is addn_raw or only_called_from(ctx, m, {addn_raw})) and isinstance(n.op, ast.Add) and isinstance(n.value, ast.Constant) and n.value.value == 1):
                     ok = False
                     chk.violation("R16.d", m, n, f"the node id counter is changed by `{ast.unparse(n)}` outside add_node / not by one", loc=m.loc(n))
     assign = [n for n in own_nodes(addn.node) if isinstance(n, ast.Assign) and ast.unparse(n.targets[0]).endswith(".node_id")]
@@ -477,12 +502,7 @@ def _enumeration(ctx, fn):
         defs = ctx.flow.defs(f)
 
         def it_text(lp):
-            e = lp.iter
-            if isinstance(e, ast.Name):
-                ds = [d for d in defs.of(e.id) if d[0] == "value"]
-                if len(ds) == 1:
-                    e = ds[0][1]
-            return ast.unparse(e)
+            return ctx.norm.xtext(f, lp.iter)
 
         its = [it_text(lp) for lp in loops]
         exp = [inner] + ([outer] if outer else [])
